@@ -722,21 +722,39 @@ def joinPlus : List TS → TS
   | [x] => x
   | x :: xs => x ++ [p '+'] ++ joinPlus xs
 
-/-- `get_quote_trait_params` -/
-def getQuoteTraitParams (input : DataType) (ctx : ImplContext) : QuoteTraitParams :=
-  let gens := input.generics
-  let params0 : List IParam := gens.map fun g => { isLifetime := g.kind == .lifetime, name := g.name, full := g.full, punct := g.punct }
-  let theseLts : List TS := (gens.filter (·.kind == .lifetime)).map (·.name)
-  let thoseLts : List TS := match ctx.structAttr.ty.generics with
-    | some g => g.args.filterMap fun (a, _) => match a with | .lifetime n => some (lifetimeTS n) | .other _ => none
-    | none => []
-  let refLts := if ctx.kind.isRef then (if ctx.kind.isFrom then theseLts else thoseLts) else []
-  let params1 := thoseLts.foldl (fun ps lt =>
+/-- lifetimes of the deriving type -/
+def theseLifetimes (gens : List GParam) : List TS := (gens.filter (·.kind == .lifetime)).map (·.name)
+
+/-- lifetimes among the generic arguments of the counterpart path -/
+def thoseLifetimes (ty : TypePath) : List TS :=
+  match ty.generics with
+  | some g => g.args.filterMap fun (a, _) => match a with | .lifetime n => some (lifetimeTS n) | .other _ => none
+  | none => []
+
+/-- the lifetimes the borrow of a by-reference conversion has to outlive -/
+def refLifetimes (input : DataType) (ctx : ImplContext) : List TS :=
+  if ctx.kind.isRef then (if ctx.kind.isFrom then theseLifetimes input.generics else thoseLifetimes ctx.structAttr.ty) else []
+
+def o2oParam (refLts : List TS) : IParam :=
+  { isLifetime := true, name := lifetimeTS "o2o", full := lifetimeTS "o2o" ++ [colon] ++ joinPlus refLts, punct := false }
+
+/-- the type's parameters plus the counterpart-only lifetimes (`missing_lt` loop of the code, as written) -/
+def withMissingLifetimes (params0 : List IParam) (thoseLts : List TS) : List IParam :=
+  thoseLts.foldl (fun ps lt =>
     let missing := ps.all fun prm => if prm.isLifetime then !(prm.name == lt) else false
     if missing then pushParam ps { isLifetime := true, name := lt, full := lt, punct := false } else ps) params0
-  let params2 := if !refLts.isEmpty then
-      pushParam params1 { isLifetime := true, name := lifetimeTS "o2o", full := lifetimeTS "o2o" ++ [colon] ++ joinPlus refLts, punct := false }
-    else params1
+
+/-- the generic parameter list declared on the impl -/
+def implParams (input : DataType) (ctx : ImplContext) : List IParam :=
+  let params0 : List IParam := input.generics.map fun g => { isLifetime := g.kind == .lifetime, name := g.name, full := g.full, punct := g.punct }
+  let params1 := withMissingLifetimes params0 (thoseLifetimes ctx.structAttr.ty)
+  let refLts := refLifetimes input ctx
+  if !refLts.isEmpty then pushParam params1 (o2oParam refLts) else params1
+
+/-- `get_quote_trait_params` -/
+def getQuoteTraitParams (input : DataType) (ctx : ImplContext) : QuoteTraitParams :=
+  let params0 : List IParam := input.generics.map fun g => { isLifetime := g.kind == .lifetime, name := g.name, full := g.full, punct := g.punct }
+  let refLts := refLifetimes input ctx
   { attr := ctx.structAttr.fnAttr.getD []
     implAttr := ctx.structAttr.implAttr.getD []
     innerAttr := ctx.structAttr.innerAttr.getD []
@@ -744,7 +762,7 @@ def getQuoteTraitParams (input : DataType) (ctx : ImplContext) : QuoteTraitParam
     src := ctx.srcTy
     theseGens := printGenerics params0
     thoseGens := match ctx.structAttr.ty.generics with | some g => g.toTS | none => []
-    implGens := printGenerics params2
+    implGens := printGenerics (implParams input ctx)
     whereClause := match input.attrs.whereAttr ctx.ty with
       | some w => [i "where"] ++ w.whereClause
       | none => []
